@@ -158,14 +158,14 @@ func checkValid(c Case) *vk.Failure {
 	}
 	vk.Sample("lapack-valid-edge", c)
 	if e.res.Outcome != vk.Returned {
-		return vk.Failf("valid-call-"+e.res.Outcome.String()+"/"+c.R, "%s on valid arguments (mode %q): %s", c.R, c.Mode, e.res.Text)
+		return vk.Failf("valid-call-"+e.res.Outcome.String()+"/"+c.R+e.tag, "%s on valid arguments (mode %q): %s", c.R, c.Mode, e.res.Text)
 	}
 	for _, o := range e.ops {
 		if d := o.diff(false, false); d != "" {
 			return vk.Failf("valid-call-wrote-outside-slice/"+c.R, "%s: %s", c.R, d)
 		}
 	}
-	if e.query() {
+	if e.query() && !e.queryMayWrite {
 		for _, o := range e.ops {
 			if d := o.diff(true, o == e.workOp); d != "" {
 				return vk.Failf("workspace-query-wrote/"+c.R, "%s with lwork=-1 must only store the optimal size in work[0]: %s", c.R, d)
